@@ -702,7 +702,7 @@ def site_delete(fns):
 def c07(fns, tier, env):
     out = [site_update_record(fns, "::replace_record_if_current", False, file_hint="src/core/store/atomic.rs", ts_tuple_local="_5", identity_local="_3", witness=[("(f)", "c07_lost_increment+c07_aba_same_timestamp")] + UPDATE_WITNESSES),
            site_update_record(fns, "::update_record_with_ttl", False),
-           site_delete(fns), site_atomic_increment(fns), site_compare_and_swap(fns), site_json_patch(fns)]
+           site_delete(fns), site_atomic_increment(fns), site_compare_and_swap(fns), site_json_patch(fns), site_insert_if_absent_exclusive(fns)]
     return finalize(out, env)
 
 
@@ -2461,6 +2461,46 @@ def site_worker_final_flush(fns):
     ob.must_hold(len(re.findall(r"Eq\(move _\d+, const [\w:]*FINAL_FLUSH_RETRY_LIMIT\)", f.text)) >= 2, "both retry branches compare `retries` with FINAL_FLUSH_RETRY_LIMIT")
     ob.queries += it2.queries
     return ob.result(it, witness="c02_acknowledged_value_survives+c13_model_accounting_and_reopen")
+
+
+def site_insert_if_absent_exclusive(fns):
+    f = mir.find(fns, "::insert_if_absent", "src/core/store/atomic.rs")
+    ob = Ob("site_insert_if_absent_exclusive", "insert_if_absent, every path: the existence test and the creation happen under ONE hash-table entry guard (a single HashMap::entry call); the call "
+            "answers Ok(true) exactly on the paths where it created the entry in the Vacant arm, and Ok(false) exactly on the Occupied arm, where it has no effect at all (no reservation, no "
+            "entry, no index, counter or write-buffer change) – given that the scc entry guard serialises callers on one key, exactly one of several racing callers creates it",
+            "all paths", f)
+    it = Interp(f, loop_bound=1, pure=PURE, max_paths=4000)
+    t_n = f_n = 0
+    for p in it.run():
+        ob.paths += 1
+        if p.status != "return" or p.ret is None:
+            continue
+        ent = events(p, "HashMap::entry")
+        ins = events(p, "VacantEntry::insert_entry")
+        okr, _ = it.entails(p.pc, it.ctx.disc(it.as_u(p.ret)) == 0)
+        if not okr:
+            ob.must_hold(not ins or bool(events(p, "WriteBuffer::add_write")), "an error after the entry exists can only come from queuing the write")
+            continue
+        ob.must_hold(len(ent) == 1, "one entry-guard acquisition decides and creates")
+        val = it.ctx.uf("proj_Ok_0", [U], z3.BoolSort())(it.as_u(p.ret))
+        tr, _ = it.entails(p.pc, val)
+        fa, _ = it.entails(p.pc, z3.Not(val))
+        if tr:
+            t_n += 1
+            ob.must_hold(len(ins) == 1, "Ok(true) only after this call created the entry")
+            if ent and ins:
+                ob.need(it, ins[0].pc, it.ctx.disc(it.as_u(ent[0].ret)) == 1, "the entry is created in the Vacant arm of that same guard")
+        elif fa:
+            f_n += 1
+            ob.must_hold(not ins, "Ok(false) never after creating an entry")
+            if ent:
+                ob.need(it, p.pc, it.ctx.disc(it.as_u(ent[0].ret)) == 0, "Ok(false) only in the Occupied arm")
+            eff = events(p, "::reserve_memory") + events(p, "::insert_into_tree") + events(p, "Atomic::fetch_add") + events(p, "WriteBuffer::add_write") + events(p, "MemoryReservation::commit")
+            ob.must_hold(not eff, "a refused insert-if-absent has no effect")
+        else:
+            ob.must_hold(False, "the boolean answer is determined on every Ok path")
+    ob.must_hold(t_n >= 1 and f_n >= 1, "creating and refusing paths were reached (%d/%d)" % (t_n, f_n))
+    return ob.result(it, witness="c07_cas_and_patch_semantics+c13_memory_limit_model")
 
 
 # ============================================================================ C19: which worker owns which shard
